@@ -2,12 +2,17 @@
    the generic OCaml driver calls). Extract.v only extracts these definitions; Properties.v
    states the main theorem over them. No proofs in this file.
    input  : mode qos cfs prev ratio n  then n records (rcf rc lcf lc rmf rm lmf lm)
-            (mode = which request builder the harness used; the model does not depend on it;
-             prev, ratio = annotation codes of two successive node-meta rule updates)
+            then optionally amode and, for amode 2 / 3, n records (present rcf rc lcf lc rmf rm lmf lm)
+            (mode = which request builder the harness used: 0 runtime proxy, 1 NRI, else reconciler;
+             prev, ratio = annotation codes of two successive node-meta rule updates;
+             amode = how the pod reached the store (View.stored): 0 / absent = admitted by the
+             webhook, 1 = webhook bypassed and no annotation, 2 = webhook bypassed and the foreign
+             extended-resource-spec annotation given by the second record list, 3 = created with
+             that foreign annotation and admitted by the webhook)
    observable: 6 integers for the pod, then 6 per container in spec order:
             sharesSet shares quotaSet quota memSet mem *)
 From Coq Require Import List ZArith Bool.
-From Verif Require Import Lib.Wire C14.Model C14.Spec C14.Rule.
+From Verif Require Import Lib.Wire C14.Model C14.View C14.Spec C14.Rule.
 Import ListNotations.
 Open Scope Z_scope.
 
@@ -31,6 +36,27 @@ Definition decode (inp : list Z) : cfg * cfg * list ctr :=
   | _ => (cfg_of_codes 0 0 (-100), cfg_of_codes 0 0 (-100), [])
   end.
 
+(* the foreign annotation: one optional entry per container, in container order *)
+Fixpoint decode_entries (k : nat) (l : list Z) : list (option ctr) :=
+  match k, l with
+  | S k', p :: a :: b :: c :: d :: e :: f :: g :: h :: t =>
+      (if p =? 0 then None else Some (mkCtr (opt_of a b) (opt_of c d) (opt_of e f) (opt_of g h)))
+      :: decode_entries k' t
+  | _, _ => []
+  end.
+
+(* which request builder is used and the pod object as stored *)
+Definition decode_view (inp : list Z) : bool * spod :=
+  match inp with
+  | mode :: _q :: _c :: _prev :: _k :: n :: t =>
+      let cs := decode_ctrs (Z.to_nat n) t in
+      match skipn (8 * Z.to_nat n) t with
+      | amode :: f => (recon_of_mode mode, stored amode cs (decode_entries (Z.to_nat n) f))
+      | [] => (recon_of_mode mode, stored 0 cs [])
+      end
+  | _ => (false, [])
+  end.
+
 Definition enc_opt (o : option Z) : list Z := match o with Some v => [1; v] | None => [0; 0] end.
 Definition enc_res (r : res) : list Z := enc_opt (shares r) ++ enc_opt (quota r) ++ enc_opt (mem r).
 Definition enc_obs (o : obs) : list Z := enc_res (fst o) ++ flat_map enc_res (snd o).
@@ -52,18 +78,24 @@ Definition dec_obs (l : list Z) : obs :=
 Definition well_sized (n : nat) (l : list Z) : bool := Nat.eqb (length l) (6 * (n + 1)).
 
 Definition run_case (inp : list Z) : list Z :=
-  let '(g, _, cs) := decode inp in enc_obs (run g cs).
+  let '(g, _, _) := decode inp in
+  let '(recon, p) := decode_view inp in enc_obs (run_b recon g p).
 
-(* the property is judged against the ratio the node advertises *)
+(* the property is judged against the ratio the node advertises and the declaration the agent is
+   handed (Spec.handed: the pod spec for the reconciler, the annotation for proxy / NRI) *)
 Definition prop_case (inp o : list Z) : Z :=
-  let '(_, gw, cs) := decode inp in
+  let '(_, gw, _) := decode inp in
+  let '(recon, p) := decode_view inp in
+  let cs := handed recon p in
   if negb (well_sized (length cs) o) then 9 else prop_code gw cs (dec_obs o).
 
 (* non-trivial: a best-effort pod with at least two containers naming a batch resource, CFS
    quota enabled and a finite pod-level quota or memory limit (so sums, clamps and the
    pod-versus-container comparison are all exercised) *)
 Definition nontrivial_case (inp : list Z) : bool :=
-  let '(g, _, cs) := decode inp in
+  let '(g, _, _) := decode inp in
+  let '(recon, p) := decode_view inp in
+  let cs := handed recon p in
   be g && cfsOn g && (2 <=? Z.of_nat (length (spec_of cs)))
   && (all_cpu_limited (spec_of cs) || all_mem_limited (spec_of cs)).
 
@@ -89,5 +121,7 @@ Fixpoint eq_listZ (a b : list Z) : bool :=
    ignored by the pod-level values) AND the implementation's whole observable equals the faithful
    model's, so that no other deviation can hide behind the recorded shape; every other failure is 0 *)
 Definition finding_sig (inp o : list Z) : Z :=
-  let '(_, gw, cs) := decode inp in
+  let '(_, gw, _) := decode inp in
+  let '(recon, p) := decode_view inp in
+  let cs := handed recon p in
   if well_sized (length cs) o && d10_shape gw cs (dec_obs o) && eq_listZ (run_case inp) o then 1 else 0.
